@@ -34,7 +34,7 @@ FLOORS = {"quick": {"evaluations": 500, "stream_comparisons": 1200, "success_rep
 
 def shards(tier, seed):
     if tier == "quick":
-        return [{"seed": seed * 1000 + i, "n": 45, "max_in": 4, "max_out": 4} for i in range(16)]
+        return [{"seed": seed * 1000 + i, "n": 120, "max_in": 4, "max_out": 4} for i in range(16)]
     return [{"seed": seed * 1000 + i, "n": 1300, "max_in": 20, "max_out": 20, "big": True}
             for i in range(32)]
 
@@ -98,9 +98,16 @@ def build(c, spec):
     h = rng.random()
     if form != "hash" and h < 0.25:
         part = rng.choice(["tx", "receipt", "proof"])
-        if rng.random() < 0.5:
+        r = rng.random()
+        if r < 0.3:
             out["sign_policy"]["early"] = (part, rng.choice([1, 2, 7, 8, 20, 60, 90]))
             out["hostile"] = "early:" + part
+        elif r < 0.6:
+            # stops just short of the end, after many small requests
+            out["sign_policy"]["early_tail"] = (part, rng.choice([1, 2, 3, 5, 10, 30]))
+            out["chunk"] = ChunkPolicy("const", rng.choice([1, 2, 3, 4, 8]),
+                                       random.Random(rng.getrandbits(32)))
+            out["hostile"] = "early-tail:" + part
         else:
             out["sign_policy"]["late"] = {part: rng.randint(1, 3)}
             out["hostile"] = "late:" + part
